@@ -35,7 +35,38 @@ def design_c04(rep, tier):
 
 
 def design_c18(rep, tier):
+    import json
+    import os
     _design(rep, tier)
+    r = common.design_check("StatsMerge", "MC_StatsMerge.cfg", workers=8)
+    rep.add_model(r, role="design: per-batch statistics with differing key sets accumulate to the sums, any partition")
+    rep.add_model(common.neg_check("StatsMerge", "Neg_StatsMerge.cfg"), role="negative: keys missing in the accumulator are dropped")
+    # spec -> code: every batch sequence of the replay bound through the real merge_stats
+    res, states = common.tlc_dump_states("StatsMerge", "MC_StatsMerge_replay.cfg", workers=8)
+    seqs = []
+    seen = set()
+    for s in states:
+        if s["done"] == 0:
+            bs = [({} if b == [] else b) for b in s["batches"]]
+            k = json.dumps(bs, sort_keys=True)
+            if k not in seen:
+                seen.add(k)
+                seqs.append(bs)
+    wd = common.workdir("statsmerge_%d" % os.getpid(), fresh=True)
+    sf, lg = os.path.join(wd, "seqs.json"), os.path.join(wd, "merge.ndjson")
+    with open(sf, "w") as f:
+        json.dump(seqs, f)
+    common.run_driver("drv_c18", [sf, lg])
+    n, bad, st = common.validate_trace("StatsMerge_Trace", lg)
+    rep.add_trace_stats(n, st)
+    ev = {e["id"]: e for e in common.read_ndjson(lg)}
+    for eid, clause in bad:
+        e = ev[eid]
+        rep.fail("StatsAreSumOfBatches", "merge_stats batches=%s" % json.dumps(e["batches"]), group="merge_stats",
+                 detail={"batches": e["batches"], "result": e["result"]}, replay={"inputs": [], "clause": "StatsAreSumOfBatches"})
+    rep.extra["merge_stats_sequences_replayed"] = len(seqs)
+    import shutil
+    shutil.rmtree(wd, ignore_errors=True)
 
 
 def design_c13(rep, tier):
